@@ -751,6 +751,261 @@ Section Live.
           as (fuel2 & Hfin); [intros j Hj; apply Hc1; lia|lia|].
         exists (fuel1 + fuel2)%nat. rewrite run_add, Hrun1. exact Hfin.
   Qed.
+
+  (** ** One duplicated datagram *)
+
+  Definition one_dup (fs : list (N * fault)) (i : N) : Prop :=
+    fault_at fs i = NfDup /\ forall k, k <> i -> fault_at fs k = NfDeliver.
+
+  Lemma chan_puts_dup : forall fs d q n, fault_at fs n = NfDup ->
+    chan_puts fs (mk_chan q None n) [d] = mk_chan (q ++ [d; d]) None (n + 1).
+  Proof. intros fs d q n H. unfold chan_puts. cbn [fold_left]. unfold chan_put. cbn [ch_n ch_held ch_q]. rewrite H. reflexivity. Qed.
+
+  (** Second half of a round: the sender discards [stale] repeated ACKs of block [a], accepts the
+      ACK of the window and sends the next one; [x] further copies of that ACK stay queued. *)
+  Lemma half_b : forall s r1 a r0 stale x n1 n2, SS s a r0 ->
+    (if a + wlen s =? nb then r_phase r1 = RDone OutOk /\ written_bytes (w_file (r_w r1)) = F
+     else exists hist', RS hist' r1 (a + wlen s) 0) ->
+    exists p', run (stale + 1)
+                 (mk_pair s r1 (mk_chan [] None n1)
+                          (mk_chan (repeat (ack_dgram a) stale ++ ack_dgram (a + wlen s) :: repeat (ack_dgram (a + wlen s)) x) None n2)) = p' /\
+      if a + wlen s =? nb then Final p'
+      else exists s' hist', p' = emit_state s' r1 (a + wlen s) n1 n2 x /\ SS s' (a + wlen s) 0 /\ RS hist' r1 (a + wlen s) 0.
+  Proof.
+    intros s r1 a r0 stale x n1 n2 Hss Hfin1.
+    destruct (drain_stale stale s a r0 r1 None n1 (ack_dgram (a + wlen s) :: repeat (ack_dgram (a + wlen s)) x) None n2 Hss)
+      as (s1 & Hrun1 & Hss1 & Hl1).
+    eexists. split; [reflexivity|]. rewrite run_add, Hrun1. cbn [pair_run]. rewrite step_send by apply Hss1.
+    rewrite <- Hl1. destruct (send_ack_window s1 a r0 Hss1) as (s2 & out & E & Hres). rewrite E. cbn [fst snd].
+    rewrite Hl1 in *. destruct (N.eqb_spec (a + wlen s) nb) as [Hlast|Hnot].
+    - destruct Hres as [-> Hd]. cbn [sent_bytes map filter].
+      change (chan_puts f_sr (mk_chan [] None n1) []) with (mk_chan [] None n1).
+      unfold Final. cbn [p_r p_s]. destruct Hfin1 as [Hp Hfile]. repeat split; assumption.
+    - destruct Hres as [Hss2 Hout]. destruct Hfin1 as [hist' Hrs']. rewrite Hout.
+      exists s2, hist'. split; [reflexivity|split; assumption].
+  Qed.
+
+  (** A round whose ACK is duplicated by the network. *)
+  Lemma round_ack_dup : forall s r a r0 j0 stale hist n1 n2, SS s a r0 -> RS hist r (a + j0) j0 -> j0 < wlen s ->
+    fault_at f_rs n2 = NfDup ->
+    exists fuel p', run fuel (sync_state s r a n1 n2 stale) = p' /\
+      if a + wlen s =? nb then Final p'
+      else exists s' r' hist', p' = emit_state s' r' (a + wlen s) n1 (n2 + 1) 1 /\
+             SS s' (a + wlen s) 0 /\ RS hist' r' (a + wlen s) 0.
+  Proof.
+    intros s r a r0 j0 stale hist n1 n2 Hss Hrs Hj Hf2. unfold sync_state.
+    destruct (half_a s r a r0 j0 stale hist n1 n2 [ack_dgram (a + wlen s); ack_dgram (a + wlen s)] Hss Hrs Hj)
+      as (s1 & r1 & Hrun1 & Hss1 & Hl1 & Hfin1).
+    { apply chan_puts_dup. exact Hf2. }
+    rewrite <- Hl1 in Hfin1, Hrun1.
+    assert (Hrun1' : run (N.to_nat (wlen s) + stale)
+              (mk_pair s r (mk_chan (datas (a + 1) (N.to_nat (wlen s))) None n1) (mk_chan (repeat (ack_dgram a) stale) None n2)) =
+            mk_pair s1 r1 (mk_chan [] None n1)
+              (mk_chan (repeat (ack_dgram a) 0 ++ ack_dgram (a + wlen s1) :: repeat (ack_dgram (a + wlen s1)) 1) None (n2 + 1)))
+      by (rewrite Hl1 in *; exact Hrun1).
+    destruct (half_b s1 r1 a r0 O 1 n1 (n2 + 1) Hss1 Hfin1) as (p' & Hrun2 & Hres).
+    exists (N.to_nat (wlen s) + stale + (0 + 1))%nat, p'. split; [rewrite run_add, Hrun1'; exact Hrun2|].
+    rewrite Hl1 in Hres. destruct (a + wlen s =? nb); [exact Hres|].
+    destruct Hres as (s' & hist' & Hp' & Hss' & Hrs'). exists s', r1, hist'. split; [exact Hp'|split; assumption].
+  Qed.
+
+  Lemma ack_dup_from_emit : forall k s r a hist n1 n2 i, nb - a <= N.of_nat k ->
+    SS s a 0 -> RS hist r a 0 -> one_dup f_rs i -> clean_from f_sr n1 -> n2 <= i ->
+    exists fuel, Final (run fuel (emit_state s r a n1 n2 0)).
+  Proof.
+    intros k. induction k as [|k IH]; intros s r a hist n1 n2 i Hk Hss Hrs [Hd Hother] Hc1 Hi;
+      pose proof (SS_len _ _ _ Hss) as (Ha & Hlen & Hpos); [lia|].
+    rewrite emit_clean by (intros j Hj; apply Hc1; lia).
+    assert (Hrs0 : RS hist r (a + 0) 0) by (replace (a + 0) with a by lia; exact Hrs).
+    destruct (N.eq_dec i n2) as [->|Hne].
+    - destruct (round_ack_dup s r a 0 0 O hist (n1 + wlen s) n2 Hss Hrs0 ltac:(lia) Hd) as (fuel1 & p' & Hrun1 & Hres).
+      destruct (N.eqb_spec (a + wlen s) nb) as [Hlast|Hnot].
+      + exists fuel1. rewrite Hrun1. exact Hres.
+      + destruct Hres as (s' & r' & hist' & -> & Hss' & Hrs').
+        pose proof (SS_len _ _ _ Hss') as (_ & _ & Hpos').
+        rewrite emit_clean in Hrun1 by (intros j Hj; apply Hc1; lia).
+        destruct (perfect_from_sync k s' r' (a + wlen s) 0 0 1 hist' (n1 + wlen s + wlen s') (n2 + 1)
+                    ltac:(lia) Hss' ltac:(replace (a + wlen s + 0) with (a + wlen s) by lia; exact Hrs') ltac:(lia))
+          as (fuel2 & Hfin).
+        { intros j Hj. apply Hc1. lia. }
+        { intros j Hj. apply Hother. lia. }
+        exists (fuel1 + fuel2)%nat. rewrite run_add, Hrun1. exact Hfin.
+    - destruct (round_gen s r a 0 0 O hist (n1 + wlen s) n2 Hss Hrs0 ltac:(lia) ltac:(apply Hother; lia))
+        as (fuel1 & p' & Hrun1 & Hres).
+      destruct (N.eqb_spec (a + wlen s) nb) as [Hlast|Hnot].
+      + exists fuel1. rewrite Hrun1. exact Hres.
+      + destruct Hres as (s' & r' & hist' & -> & Hss' & Hrs').
+        destruct (IH s' r' (a + wlen s) hist' (n1 + wlen s) (n2 + 1) i ltac:(lia) Hss' Hrs' (conj Hd Hother))
+          as (fuel2 & Hfin); [intros j Hj; apply Hc1; lia|lia|].
+        exists (fuel1 + fuel2)%nat. rewrite run_add, Hrun1. exact Hfin.
+  Qed.
+
+  (** *** A duplicated DATA datagram *)
+
+  Lemma emit_dup : forall s r a n1 n2 stale g, N.of_nat g < wlen s ->
+    clean f_sr n1 (n1 + N.of_nat g) -> fault_at f_sr (n1 + N.of_nat g) = NfDup ->
+    clean f_sr (n1 + N.of_nat g + 1) (n1 + wlen s) ->
+    emit_state s r a n1 n2 stale =
+      mk_pair s r (mk_chan (datas (a + 1) g ++ data_dgram blk F (a + 1 + N.of_nat g) :: data_dgram blk F (a + 1 + N.of_nat g) ::
+                            datas (a + N.of_nat g + 2) (N.to_nat (wlen s) - g - 1)) None (n1 + wlen s))
+              (mk_chan (repeat (ack_dgram a) stale) None n2).
+  Proof.
+    intros s r a n1 n2 stale g Hg Hc1 Hd Hc2. unfold emit_state. f_equal.
+    replace (N.to_nat (wlen s)) with (g + (1 + (N.to_nat (wlen s) - g - 1)))%nat at 1 by lia.
+    rewrite !datas_app, !chan_puts_app. rewrite chan_puts_clean by (unfold lenN; rewrite datas_length; exact Hc1).
+    unfold lenN at 1. rewrite datas_length. cbn [datas app]. rewrite chan_puts_dup by exact Hd.
+    rewrite chan_puts_clean.
+    - unfold lenN. rewrite datas_length. rewrite <- !app_assoc. cbn [app]. f_equal; [|lia].
+      f_equal. f_equal. f_equal. f_equal. lia.
+    - unfold lenN. rewrite datas_length. intros i Hi. apply Hc2. lia.
+  Qed.
+
+  Lemma step_send_done : forall s r o sr d q h' n', r_phase r = RDone o -> s_phase s = SInWindow ->
+    step (mk_pair s r sr (mk_chan (d :: q) h' n')) =
+      Some (mk_pair (fst (send_step sc s (EvDgram 0 d))) r
+                    (chan_puts f_sr sr (sent_bytes (snd (send_step sc s (EvDgram 0 d)))))
+                    (mk_chan q h' n')).
+  Proof.
+    intros s r o sr d q h' n' Hr Hp. unfold pair_step. cbn [p_sr p_r p_s p_rs ch_q ch_held ch_n].
+    unfold r_running, s_running. rewrite Hr, Hp.
+    destruct (send_step sc s (EvDgram 0 d)) as [s' out]. destruct (ch_q sr); reflexivity.
+  Qed.
+
+  Lemma drain_stale_done : forall n s a r0 rr o sr q h' n', r_phase rr = RDone o -> SS s a r0 ->
+    exists s', run n (mk_pair s rr sr (mk_chan (repeat (ack_dgram a) n ++ q) h' n')) =
+                 mk_pair s' rr sr (mk_chan q h' n') /\ SS s' a r0 /\ wlen s' = wlen s.
+  Proof.
+    intros n. induction n as [|n IH]; intros s a r0 rr o sr q h' n' Hr Hss.
+    - cbn [repeat app pair_run]. exists s. split; [reflexivity|]. split; [exact Hss|reflexivity].
+    - cbn [repeat app pair_run]. rewrite (step_send_done s rr o) by (try exact Hr; apply Hss).
+      destruct (send_stale s a r0 Hss) as (s1 & E & Hss1 & Hl1). rewrite E. cbn [fst snd sent_bytes map filter].
+      change (chan_puts f_sr sr []) with sr.
+      destruct (IH s1 a r0 rr o sr q h' n' Hr Hss1) as (s' & Hrun & Hss' & Hl').
+      exists s'. split; [exact Hrun|]. split; [exact Hss'|]. rewrite Hl'. exact Hl1.
+  Qed.
+
+  (** The receiver is done; whatever is still queued for it no longer matters: the sender reads its ACK and ends. *)
+  Lemma finish_with_leftover : forall s r1 a r0 stale sr n2, SS s a r0 -> a + wlen s = nb ->
+    r_phase r1 = RDone OutOk -> written_bytes (w_file (r_w r1)) = F ->
+    Final (run (stale + 1) (mk_pair s r1 sr (mk_chan (repeat (ack_dgram a) stale ++ [ack_dgram (a + wlen s)]) None n2))).
+  Proof.
+    intros s r1 a r0 stale sr n2 Hss Hlast Hr Hfile.
+    destruct (drain_stale_done stale s a r0 r1 OutOk sr [ack_dgram (a + wlen s)] None n2 Hr Hss) as (s1 & Hrun1 & Hss1 & Hl1).
+    rewrite run_add, Hrun1. cbn [pair_run]. rewrite (step_send_done s1 r1 OutOk) by (try exact Hr; apply Hss1).
+    rewrite <- Hl1. destruct (send_ack_window s1 a r0 Hss1) as (s2 & out & E & Hres). rewrite E. cbn [fst snd].
+    rewrite Hl1 in Hres. destruct (N.eqb_spec (a + wlen s) nb) as [_|]; [|contradiction].
+    destruct Hres as [-> Hd]. unfold Final. cbn [p_r p_s]. repeat split; assumption.
+  Qed.
+
+  (** A round whose window reaches the receiver with its [g]-th datagram (from 0) doubled. *)
+  Lemma dup_round : forall s r a r0 stale hist n1 n2 g, SS s a r0 -> RS hist r a 0 -> N.of_nat g < wlen s ->
+    fault_at f_rs n2 = NfDeliver -> fault_at f_rs (n2 + 1) = NfDeliver ->
+    exists fuel p',
+      run fuel (mk_pair s r (mk_chan (datas (a + 1) g ++ data_dgram blk F (a + 1 + N.of_nat g) :: data_dgram blk F (a + 1 + N.of_nat g) ::
+                                      datas (a + N.of_nat g + 2) (N.to_nat (wlen s) - g - 1)) None n1)
+                        (mk_chan (repeat (ack_dgram a) stale) None n2)) = p' /\
+      if a + wlen s =? nb then Final p'
+      else exists s' r' hist' x n2', p' = emit_state s' r' (a + wlen s) n1 n2' x /\
+             SS s' (a + wlen s) 0 /\ RS hist' r' (a + wlen s) 0 /\ n2 < n2'.
+  Proof.
+    intros s r a r0 stale hist n1 n2 g Hss Hrs Hg Hf2 Hf3.
+    pose proof (SS_len _ _ _ Hss) as (Ha & Hlen & Hpos). set (m := wlen s) in *.
+    set (rest := (N.to_nat m - g - 1)%nat). set (d := data_dgram blk F (a + 1 + N.of_nat g)).
+    assert (Hmws : m <= ws) by lia. pose proof Hwf as (_ & _ & Hw).
+    assert (Hclean1 : forall q, chan_puts f_rs (mk_chan q None n2) [ack_dgram (a + m)] = mk_chan (q ++ [ack_dgram (a + m)]) None (n2 + 1)).
+    { intros q. rewrite chan_puts_clean; [reflexivity|]. intros i Hi. rewrite lenN_cons, lenN_nil in Hi. replace i with n2 by lia. exact Hf2. }
+    destruct (Nat.eq_dec rest 0) as [Hlastblk|Hmid].
+    - (* the doubled datagram is the last of the window *)
+      replace (datas (a + N.of_nat g + 2) rest) with (@nil bytes) by (rewrite Hlastblk; reflexivity).
+      replace (datas (a + 1) g ++ [d; d]) with (datas (a + 1) (N.to_nat m) ++ [d]).
+      2: { replace (N.to_nat m) with (g + 1)%nat by (unfold rest in Hlastblk; lia). rewrite datas_app. cbn [datas app].
+           rewrite <- app_assoc. cbn [app]. reflexivity. }
+      destruct (drain_in_seq (N.to_nat m) hist r a 0 s [d] None n1 (mk_chan (repeat (ack_dgram a) stale) None n2) Hrs)
+        as (r1 & Hrun1 & Hfin1); try lia.
+      replace (a + N.of_nat (N.to_nat m)) with (a + m) in * by lia. rewrite Hclean1 in Hrun1.
+      destruct (N.eqb_spec (a + m) nb) as [Hlast|Hnot].
+      + (* the file is complete: the second copy is never read *)
+        exists (N.to_nat m + (stale + 1))%nat. eexists. split; [reflexivity|]. rewrite run_add, Hrun1.
+        destruct Hfin1 as [Hp Hfile]. apply (finish_with_leftover s r1 a r0 stale _ _ Hss Hlast Hp Hfile).
+      + destruct Hfin1 as [hist1 Hrs1].
+        (* the second copy finds nothing buffered: the ACK is repeated *)
+        replace (a + m) with (a + m + 0) in Hrs1 by lia.
+        destruct (drain_out_seq 1 (a + 1 + N.of_nat g) hist1 r1 (a + m + 0) 0 s [] None n1
+                    (mk_chan (repeat (ack_dgram a) stale ++ [ack_dgram (a + m)]) None (n2 + 1)) Hrs1) as (r2 & hist2 & Hrun2 & Hrs2).
+        { intros i Hi. unfold rest in Hlastblk. lia. }
+        cbn [datas app] in Hrun2. fold d in Hrun2. change (0 =? 0) with true in Hrun2. cbv iota in Hrun2.
+        replace (a + m + 0) with (a + m) in * by lia.
+        rewrite chan_puts_clean in Hrun2 by (intros i Hi; cbn [repeat] in Hi; rewrite lenN_cons, lenN_nil in Hi; replace i with (n2 + 1) by lia; exact Hf3).
+        cbn [repeat] in Hrun2. rewrite <- app_assoc in Hrun2. cbn [app] in Hrun2. rewrite lenN_cons, lenN_nil in Hrun2.
+        destruct (half_b s r2 a r0 stale 1 n1 (n2 + 1 + (0 + 1)) Hss) as (p' & Hrun3 & Hres).
+        { fold m. destruct (N.eqb_spec (a + m) nb); [contradiction|]. exists hist2. exact Hrs2. }
+        fold m in Hrun3, Hres. cbn [repeat] in Hrun3.
+        exists (N.to_nat m + (1 + (stale + 1)))%nat, p'. split; [rewrite run_add, Hrun1, run_add, Hrun2; exact Hrun3|].
+        destruct (N.eqb_spec (a + m) nb); [contradiction|]. destruct Hres as (s' & hist' & Hp' & Hss' & Hrs').
+        exists s', r2, hist', 1%nat, (n2 + 1 + (0 + 1)). split; [exact Hp'|]. split; [exact Hss'|]. split; [exact Hrs'|lia].
+    - (* the doubled datagram is inside the window: its second copy is ignored *)
+      replace (datas (a + 1) g ++ d :: d :: datas (a + N.of_nat g + 2) rest)
+        with (datas (a + 1) (g + 1) ++ d :: datas (a + N.of_nat g + 2) rest)
+        by (rewrite datas_app; cbn [datas app]; rewrite <- app_assoc; reflexivity).
+      destruct (drain_buffer (g + 1) hist r a 0 s (d :: datas (a + N.of_nat g + 2) rest) None n1
+                  (mk_chan (repeat (ack_dgram a) stale) None n2) Hrs) as (r1 & hist1 & Hrun1 & Hrs1); try (unfold rest in Hmid; lia).
+      destruct (drain_out_seq 1 (a + 1 + N.of_nat g) hist1 r1 (a + N.of_nat (g + 1)) (0 + N.of_nat (g + 1)) s
+                  (datas (a + N.of_nat g + 2) rest) None n1 (mk_chan (repeat (ack_dgram a) stale) None n2) Hrs1)
+        as (r2 & hist2 & Hrun2 & Hrs2).
+      { intros i Hi. lia. }
+      cbn [datas app] in Hrun2. fold d in Hrun2.
+      replace (0 + N.of_nat (g + 1) =? 0) with false in Hrun2 by lia.
+      change (chan_puts f_rs ?c []) with c in Hrun2.
+      replace (a + N.of_nat g + 2) with (a + N.of_nat (g + 1) + 1) in Hrun1, Hrun2 |- * by lia.
+      destruct (drain_in_seq rest hist2 r2 (a + N.of_nat (g + 1)) (0 + N.of_nat (g + 1)) s [] None n1
+                  (mk_chan (repeat (ack_dgram a) stale) None n2) Hrs2) as (r3 & Hrun3 & Hfin3); try (unfold rest in *; lia).
+      rewrite app_nil_r in Hrun3.
+      replace (a + N.of_nat (g + 1) + N.of_nat rest) with (a + m) in * by (unfold rest in *; lia).
+      rewrite Hclean1 in Hrun3.
+      destruct (half_b s r3 a r0 stale 0 n1 (n2 + 1) Hss) as (p' & Hrun4 & Hres).
+      { fold m. exact Hfin3. }
+      fold m in Hrun4, Hres. cbn [repeat] in Hrun4.
+      exists (g + 1 + (1 + (rest + (stale + 1))))%nat, p'.
+      split; [rewrite run_add, Hrun1, run_add, Hrun2, run_add, Hrun3; exact Hrun4|].
+      destruct (N.eqb_spec (a + m) nb); [exact Hres|]. destruct Hres as (s' & hist' & Hp' & Hss' & Hrs').
+      exists s', r3, hist', O, (n2 + 1). split; [exact Hp'|]. split; [exact Hss'|]. split; [exact Hrs'|lia].
+  Qed.
+
+  Lemma data_dup_from_emit : forall k s r a hist n1 n2 i, nb - a <= N.of_nat k ->
+    SS s a 0 -> RS hist r a 0 -> one_dup f_sr i -> clean_from f_rs n2 -> n1 <= i ->
+    exists fuel, Final (run fuel (emit_state s r a n1 n2 0)).
+  Proof.
+    intros k. induction k as [|k IH]; intros s r a hist n1 n2 i Hk Hss Hrs [Hd Hother] Hc2 Hi;
+      pose proof (SS_len _ _ _ Hss) as (Ha & Hlen & Hpos); [lia|].
+    destruct (N.lt_ge_cases i (n1 + wlen s)) as [Hin|Hout].
+    - set (g := N.to_nat (i - n1)).
+      rewrite (emit_dup s r a n1 n2 O g) by
+        (try (unfold g; lia); try (replace (n1 + N.of_nat g) with i by (unfold g; lia); exact Hd);
+         intros j Hj; apply Hother; unfold g in Hj; lia).
+      destruct (dup_round s r a 0 O hist (n1 + wlen s) n2 g Hss Hrs ltac:(unfold g; lia)) as (fuel1 & p' & Hrun1 & Hres);
+        try (apply Hc2; lia).
+      destruct (N.eqb_spec (a + wlen s) nb) as [Hlast|Hnot].
+      + exists fuel1. rewrite Hrun1. exact Hres.
+      + destruct Hres as (s' & r' & hist' & x & n2' & -> & Hss' & Hrs' & Hn2').
+        pose proof (SS_len _ _ _ Hss') as (_ & _ & Hpos').
+        rewrite emit_clean in Hrun1 by (intros j Hj; apply Hother; lia).
+        destruct (perfect_from_sync k s' r' (a + wlen s) 0 0 x hist' (n1 + wlen s + wlen s') n2'
+                    ltac:(lia) Hss' ltac:(replace (a + wlen s + 0) with (a + wlen s) by lia; exact Hrs') ltac:(lia))
+          as (fuel2 & Hfin).
+        { intros j Hj. apply Hother. lia. }
+        { intros j Hj. apply Hc2. lia. }
+        exists (fuel1 + fuel2)%nat. rewrite run_add, Hrun1. exact Hfin.
+    - rewrite emit_clean by (intros j Hj; apply Hother; lia).
+      assert (Hrs0 : RS hist r (a + 0) 0) by (replace (a + 0) with a by lia; exact Hrs).
+      destruct (round_gen s r a 0 0 O hist (n1 + wlen s) n2 Hss Hrs0 ltac:(lia) ltac:(apply Hc2; lia))
+        as (fuel1 & p' & Hrun1 & Hres).
+      destruct (N.eqb_spec (a + wlen s) nb) as [Hlast|Hnot].
+      + exists fuel1. rewrite Hrun1. exact Hres.
+      + destruct Hres as (s' & r' & hist' & -> & Hss' & Hrs').
+        destruct (IH s' r' (a + wlen s) hist' (n1 + wlen s) (n2 + 1) i ltac:(lia) Hss' Hrs' (conj Hd Hother))
+          as (fuel2 & Hfin); [intros j Hj; apply Hc2; lia|lia|].
+        exists (fuel1 + fuel2)%nat. rewrite run_add, Hrun1. exact Hfin.
+  Qed.
   End Pair.
 
   (** * The theorems *)
@@ -799,25 +1054,61 @@ Section Live.
     - apply nil_clean.
     - exists fuel. cbv zeta. split; [exact H1|]. split; [exact H2|exact H3].
   Qed.
+
+  Lemma single_one_dup : forall i, one_dup [(i, NfDup)] i.
+  Proof.
+    intros i. split; cbn [fault_at]; [rewrite N.eqb_refl; reflexivity|].
+    intros k Hk. destruct (N.eqb_spec i k); [congruence|reflexivity].
+  Qed.
+
+  (** Any one DATA datagram delivered twice: both sides complete, the file is exact. *)
+  Theorem cosim_data_dup : forall i, exists fuel,
+    let p := pair_run sc rc [(i, NfDup)] [] fuel (pair_init sc rc [(i, NfDup)] F) in
+    r_phase (p_r p) = RDone OutOk /\ written_bytes (w_file (r_w (p_r p))) = F /\ s_phase (p_s p) = SDone OutOk.
+  Proof.
+    intros i. destruct (init_emit [(i, NfDup)]) as (s0 & -> & Hss).
+    apply (data_dup_from_emit [(i, NfDup)] [] (N.to_nat nb) s0 (recv_init rc) 0 [] 0 0 i); try assumption; try lia.
+    - exact recv_init_RS.
+    - apply single_one_dup.
+    - apply nil_clean.
+  Qed.
+
+  (** Any one ACK delivered twice: both sides complete, the file is exact. *)
+  Theorem cosim_ack_dup : forall i, exists fuel,
+    let p := pair_run sc rc [] [(i, NfDup)] fuel (pair_init sc rc [] F) in
+    r_phase (p_r p) = RDone OutOk /\ written_bytes (w_file (r_w (p_r p))) = F /\ s_phase (p_s p) = SDone OutOk.
+  Proof.
+    intros i. destruct (init_emit []) as (s0 & -> & Hss).
+    apply (ack_dup_from_emit [] [(i, NfDup)] (N.to_nat nb) s0 (recv_init rc) 0 [] 0 0 i); try assumption; try lia.
+    - exact recv_init_RS.
+    - apply single_one_dup.
+    - apply nil_clean.
+  Qed.
 End Live.
 
-(** The instance for losses of the single-fault statement of Props/C04.v (receiver side). *)
-Theorem single_loss_statement :
-  forall (blk ws : N) (F : bytes) (dir : bool) (i : N), 0 < blk -> 1 <= ws <= 65535 ->
+(** The instances for a lost and for a repeated datagram of the single-fault statement of
+    Props/C04.v (receiver side). *)
+Theorem single_loss_or_repeat_statement :
+  forall (blk ws : N) (F : bytes) (dir : bool) (i : N) (k : fault), 0 < blk -> 1 <= ws <= 65535 ->
+  k = NfDrop \/ k = NfDup ->
   exists fuel,
     let sc := mk_scfg blk ws 1000000000 1 false [] in
     let rc := mk_rcfg blk ws 1000000000 1 true [] in
-    let f1 := if dir then [(i, NfDrop)] else [] in
-    let f2 := if dir then [] else [(i, NfDrop)] in
+    let f1 := if dir then [(i, k)] else [] in
+    let f2 := if dir then [] else [(i, k)] in
     let p := pair_run sc rc f1 f2 fuel (pair_init sc rc f1 F) in
     r_phase (p_r p) = RDone OutOk /\ recv_final_file rc (p_r p) <> None.
 Proof.
-  intros blk ws F dir i Hb Hw.
+  intros blk ws F dir i k Hb Hw Hk.
   set (sc := mk_scfg blk ws 1000000000 1 false []). set (rc := mk_rcfg blk ws 1000000000 1 true []).
   assert (Hwf : wf_params (s_blk sc) (s_ws sc)) by (split; assumption).
-  destruct dir.
+  destruct Hk as [-> | ->]; destruct dir.
   - destruct (cosim_data_drop sc rc F Hwf eq_refl eq_refl eq_refl eq_refl eq_refl eq_refl eq_refl eq_refl i) as (fuel & H1 & _).
     exists fuel. cbv zeta. split; [exact H1|]. unfold recv_final_file. rewrite H1. discriminate.
   - destruct (cosim_ack_drop sc rc F Hwf eq_refl eq_refl eq_refl eq_refl eq_refl eq_refl eq_refl eq_refl i) as (fuel & H1 & _).
+    exists fuel. cbv zeta. split; [exact H1|]. unfold recv_final_file. rewrite H1. discriminate.
+  - destruct (cosim_data_dup sc rc F Hwf eq_refl eq_refl eq_refl eq_refl eq_refl eq_refl eq_refl eq_refl i) as (fuel & H1 & _).
+    exists fuel. cbv zeta. split; [exact H1|]. unfold recv_final_file. rewrite H1. discriminate.
+  - destruct (cosim_ack_dup sc rc F Hwf eq_refl eq_refl eq_refl eq_refl eq_refl eq_refl eq_refl eq_refl i) as (fuel & H1 & _).
     exists fuel. cbv zeta. split; [exact H1|]. unfold recv_final_file. rewrite H1. discriminate.
 Qed.
